@@ -11,7 +11,7 @@ cp -r /repo/pyins "$COPY/pyins"
 find "$COPY" -name __pycache__ -prune -exec rm -rf {} + 2>/dev/null
 rc_all=0
 for ID in "$@"; do
-  out=$(cd /verif && VERIF_REPO="$COPY" VERIF_EVIDENCE_DIR="$EVD" ./check "$ID" --tier "${TIER:-quick}" 2>&1)
+  out=$(cd /verif && VERIF_REPO="$COPY" VERIF_EVIDENCE_DIR="$EVD" ./check "$ID" --tier "${TIER:-quick}" ${JOBS:+--jobs $JOBS} 2>&1)
   rc=$?
   if [ $rc -eq 1 ]; then echo "KILLED   $ID  $(basename $(dirname $PATCH))/$(basename $PATCH): $(echo "$out" | grep -B1 -m1 VIOLATION | head -1 | cut -c1-220)";
   elif [ $rc -eq 0 ]; then echo "SURVIVED $ID  $(basename $(dirname $PATCH))/$(basename $PATCH)"; rc_all=1;
